@@ -95,7 +95,7 @@ def value_problems(T, t, v):
     elif isinstance(t, T.Integer):
         if not isinstance(v, int):
             probs.append(f"Integer holds {type(v).__name__}")
-        elif t.length is not None and v >= 10**t.length:
+        elif t.length is not None and abs(v) >= 10**t.length:
             probs.append(f"integer {v} has more than {t.length} digits")
     elif isinstance(t, T.Decimal):
         if not isinstance(v, decimal.Decimal):
